@@ -294,6 +294,18 @@ def check(run):
             run.check(k == 'StatechartError' or listed, r, f.short, 'raise %s%s' % (k, ' (listed: argument misuse, not document dependent)' if listed else ''),
                       'a document fault surfaces as %s instead of StatechartError' % k, x)
     run.floor(n, 15, r, 'explicit raises reachable from import_from_yaml')
+    # no handler on the import path ends without raising: a swallowed error would let a broken document through (or surface later as another exception type)
+    nh = 0
+    for qual, (f, _) in reach.items():
+        if not f.module.name.startswith('sismic.io'):
+            continue
+        for t_ in [x for x in q.walk(f.node) if isinstance(x, ast.Try)]:
+            for h in t_.handlers:
+                nh += 1
+                from ..cfg import _always_leaves
+                run.check(_always_leaves(h.body) == 'Raise', r, f.short, 'handler `except %s` ends by raising' % (q.unparse(h.type) if h.type is not None else ''),
+                          'an exception caught while importing is swallowed', h)
+    run.floor(nh, 2, r, 'exception handlers on the import path')
     sv = [c for c in q.calls(Y) if isinstance(c.func, ast.Attribute) and c.func.attr == 'validate' and 'Schema' in q.unparse(c.func.value)]
     run.check(len(sv) == 1 and _own_atoms(sv[0], ('text', 'filepath')) == [('falsy', 'ignore_schema', '')], r, yi.short, 'schema validation runs unless ignore_schema', 'differs', Y)
     for c in sv:
